@@ -30,13 +30,20 @@ pub fn plan(quick: bool) -> Vec<Part> {
     for k in BIG_K {
         v.push(Part::new("C19", "catalogue", k, Space { segs: vec![catalogue(k)] }));
     }
+    // hand-built graphs: arbitrary node lists handed to BaseGraph::add (not the output of the crate's own compressors),
+    // e.g. nodes longer than K that start or end with a palindromic k-mer
+    let hb = if quick { Space::singles(4, 6).plus(Space { segs: vec![Seg::Pair(4, 4), Seg::Pair(5, 4)] }) } else { Space::singles(4, 8).plus(Space::pairs(4, 6)).plus(Space::triples(4, 4)) };
+    v.push(Part::new("C19", "handbuilt-node-lists", 4, hb).dim("handbuilt", &[1]));
+    v.push(Part::new("C19", "handbuilt-node-lists", 5, if quick { Space::singles(5, 7) } else { Space::singles(5, 8).plus(Space { segs: vec![Seg::Pair(5, 5)] }) }).dim("handbuilt", &[1]));
+    v.push(Part::new("C19", "handbuilt-node-lists", 6, Space::singles(6, if quick { 7 } else { 9 })).dim("handbuilt", &[1]));
     v
 }
 
 pub fn finalize(_tier: &str, rep: &mut Report) {
-    rep.rule = "E1 half: for every graph of the read-set families (unpruned and pruned tables, i.e. with and without dangling extensions): finish() and finish_serial() are built from the same BaseGraph and must give identical node order, identical edge lists on every node side, identical find_link answers for ALL 4^K k-mers x both directions (K<=6; terminal k-mers, reverse complements and neighbours for K>=8), twice in a row; every answer is also judged against the string-level terminal-k-mer index. The schedule quantifier is decided by the loom engine (see coverage.loom)".into();
+    rep.rule = "E1 half: for every hand-built node list (all single nodes of length K..K+2(4) and all pairs of short nodes with distinct end k-mers, every extension bit set, stranded and unstranded - including nodes that begin or end with a palindromic k-mer) and for every graph of the read-set families (unpruned and pruned tables, i.e. with and without dangling extensions): finish() and finish_serial() are built from the same BaseGraph and must give identical node order, identical edge lists on every node side, identical find_link answers for ALL 4^K k-mers x both directions (K<=6; terminal k-mers, reverse complements and neighbours for K>=8), twice in a row; every answer is also judged against the string-level terminal-k-mer index. The schedule quantifier is decided by the loom engine (see coverage.loom)".into();
     rep.assumptions.push("inside the sweep, finish() runs nested in the harness's rayon pool; the exhaustive scheduling claim comes from the loom part only".into());
     rep.floor("R1+RT@K4:three_or_more_nodes", 1);
+    rep.floor("handbuilt-node-lists@K4:palindromic_kmer", 1);
 }
 
 type Ans = Option<EdgeV>;
@@ -111,6 +118,38 @@ fn compare<K: Kmer + Send + Sync>(o: &mut Outcome, stage: &str, bg: BaseGraph<K,
 pub fn run<K: Kmer + Send + Sync>(c: &GCase) -> Outcome {
     let mut o = Outcome::default();
     let k = K::k();
+    if c.get("handbuilt") == 1 {
+        let nodes = c.reads_s();
+        // a BaseGraph needs distinct first k-mers and distinct last k-mers (they are perfect-hash keys)
+        let firsts: std::collections::BTreeSet<&[u8]> = nodes.iter().map(|n| &n[..k]).collect();
+        let lasts: std::collections::BTreeSet<&[u8]> = nodes.iter().map(|n| &n[n.len() - k..]).collect();
+        if firsts.len() != nodes.len() || lasts.len() != nodes.len() {
+            return o;
+        }
+        if nodes.iter().any(|n| (!c.stranded && n.len() > k) && (is_pal(&n[..k]) || is_pal(&n[n.len() - k..]))) {
+            o.flags |= flag::PAL;
+        }
+        let mut bg: BaseGraph<K, u16> = BaseGraph::new(c.stranded);
+        for (i, n) in nodes.iter().enumerate() {
+            bg.add(n.iter(), Exts::new(0xff), i as u16);
+        }
+        compare(&mut o, "handbuilt", bg.clone());
+        // with every extension bit set, the reported edge lists must be exactly the resolvable lookups
+        let g = bg.finish();
+        let gv = view(&g);
+        let idx = gv.link_index();
+        for i in 0..gv.nodes.len() {
+            for side in [Side::L, Side::R] {
+                let want: Vec<Vec<EdgeV>> = (0..4u8).map(|b| idx.answers(&ext_str(gv.term(i, side), side, b), side)).filter(|a| !a.is_empty()).collect();
+                let got = gv.nodes[i].edges(side);
+                o.transitions += 1;
+                if got.len() != want.len() || got.iter().zip(want.iter()).any(|(e, a)| !a.contains(e)) {
+                    o.fail("wrong-edge", format!("[handbuilt] node {} = {} side {:?}: edges {:?}, acceptable {:?}", i, ascii(&gv.nodes[i].seq), side, got, want));
+                }
+            }
+        }
+        return o;
+    }
     let reads = plain_reads(&c.reads_s());
     let m = models(&reads, k, c.stranded, c.thr);
     o.flags = model_flags(&m);
@@ -134,8 +173,8 @@ pub fn run<K: Kmer + Send + Sync>(c: &GCase) -> Outcome {
 /// real rayon pools of 1..16 threads, repeated, compared with the serial build.
 pub fn extra(tier: &str, rep: &mut Report) {
     use debruijn::kmer::Kmer16;
-    let n_nodes: usize = if tier == "quick" { 20_000 } else { 150_000 };
-    let pools: &[usize] = if tier == "quick" { &[1, 4, 16] } else { &[1, 2, 3, 4, 8, 16] };
+    let n_nodes: usize = if tier == "quick" { 120_000 } else { 400_000 };
+    let pools: &[usize] = if tier == "quick" { &[2, 16] } else { &[1, 2, 3, 4, 8, 16] };
     let mut g = Lcg(4242);
     let mut bg: BaseGraph<Kmer16, u16> = BaseGraph::new(false);
     let mut seen = std::collections::HashSet::new();
